@@ -26,14 +26,14 @@ INVS = {
     "C07": ["C07_NotBefore", "C07_NeverStartedNeverRuns", "C07_NewestWins", "C07_NewestRuns"],
     "C08": ["C08_NoRunAfterFailedDep", "C08_FailFast", "C08_FailFastNoNewTask", "C08_Continue", "C08_VerdictSound",
             "C08_NoRunningAfterCompleted"],
-    "C10": ["C10_AllTerminal", "C10_NoGhosts", "C10_SameSet", "C10_FinishedFaithful"],
+    "C10": ["C10_AllTerminal", "C10_NoGhosts", "C10_SameSet", "C10_FinishedFaithful", "C10_NoGhostCapacity"],
     "C11": ["C11_AllTerminal", "C11_StoreMatches", "C11_RejectAfter", "C11_GracefulRunsOut", "C11_ForcedCancels", "C11_ForcedStops",
             "C11_PersistWithinInterval"],
     "C12": ["C12_KeepsUnfinished", "C12_NoSettingsNoRemoval", "C12_NewestFirstClosure", "C12_CountBound", "C12_PeriodBound",
             "C12_UndefinedPurged", "C12_ThreeViewsAgree"],
     "C15": ["C15_SchedulableIffAccepted", "C15_RunningIffExecuting", "C15_ListedFromReturn", "C15_NewestFirst",
             "C15_TimesOrdered", "C15_TaskOrder"],
-    "C16": ["C16_SnapshotRuns", "C16_ReloadIsInert", "C16_AllTerminalAtDrain"],
+    "C16": ["C16_SnapshotRuns", "C16_ReloadIsInert", "C16_AllTerminalAtDrain", "C07_NotBefore"],
 }
 
 
@@ -389,9 +389,10 @@ TIERS = {
     "quick": {"sim": [("Sim_Core.tla", "Sim_Core.cfg", 480, 200), ("Sim_Life.tla", "Sim_Life.cfg", 320, 200)],
               "edges": [("Edges_Sched.tla", "Edges_Sched.cfg", "esched"), ("Edges_Delay.tla", "Edges_Delay.cfg", "edelay"),
                         ("Edges_Queue.tla", "Edges_Queue.cfg", "equeue"), ("Edges_Debounce.tla", "Edges_Debounce.cfg", "edebounce"),
-                        ("Edges_Shut.tla", "Edges_Shut.cfg", "eshut"), ("Edges_Rest.tla", "Edges_Rest.cfg", "erest")],
+                        ("Edges_Shut.tla", "Edges_Shut.cfg", "eshut"), ("Edges_Rest.tla", "Edges_Rest.cfg", "erest"),
+                        ("Edges_Ret.tla", "Edges_Ret.cfg", "eret")],
               "mc": [("MC_Core.tla", "MC_Core.cfg"), ("MC_Sched.tla", "MC_Sched.cfg"), ("MC_Delay.tla", "MC_Delay.cfg"), ("MC_Delay.tla", "MC_Live.cfg"),
-                     ("MC_Queue.tla", "MC_Queue.cfg"), ("MC_Debounce.tla", "MC_Debounce.cfg"), ("MC_Shut.tla", "MC_Shut.cfg"), ("MC_Rest.tla", "MC_Rest.cfg")]},
+                     ("MC_Queue.tla", "MC_Queue.cfg"), ("MC_Debounce.tla", "MC_Debounce.cfg"), ("MC_Shut.tla", "MC_Shut.cfg"), ("MC_Rest.tla", "MC_Rest.cfg"), ("MC_Ret.tla", "MC_Ret.cfg")]},
     "thorough": {"sim": [("Sim_Core.tla", "Sim_Core.cfg", 6000, 300), ("Sim_Life.tla", "Sim_Life.cfg", 4000, 300)],
                  "edges": [("Edges_Sched.tla", "Edges_Sched.cfg", "esched"), ("Edges_Delay.tla", "Edges_Delay.cfg", "edelay"),
                            ("Edges_Queue.tla", "Edges_Queue.cfg", "equeue"), ("Edges_Debounce.tla", "Edges_Debounce.cfg", "edebounce"),
